@@ -26,6 +26,7 @@ import (
 	"go/ast"
 	"go/token"
 	"reflect"
+	"strings"
 
 	"github.com/uber-go/gopatch/internal/data"
 	"github.com/uber-go/gopatch/internal/pgo"
@@ -412,9 +413,49 @@ func parenthesize(file *ast.File) {
 			if v, ok := n.Value.(*ast.ChanType); ok && n.Dir == ast.SEND|ast.RECV && v.Dir == ast.RECV {
 				n.Value = paren(n.Value)
 			}
+		case *ast.BasicLit:
+			// The file is printed with the prefixes and exponents of
+			// its numbers in lower case ("0XFF" as "0xFF"). A later
+			// change matches those, like the parentheses, as the
+			// printed file has them.
+			n.Value = normalizedNumber(n.Kind, n.Value)
 		}
 		return true
 	})
+}
+
+// normalizedNumber returns the text of a number literal as go/printer
+// prints it on behalf of go/format.
+func normalizedNumber(kind token.Token, x string) string {
+	if kind != token.INT && kind != token.FLOAT && kind != token.IMAG || len(x) < 2 {
+		return x
+	}
+	switch x[:2] {
+	default:
+		// 0-prefix octal, decimal int, or float (possibly with 'i' suffix)
+		if i := strings.LastIndexByte(x, 'E'); i >= 0 {
+			return x[:i] + "e" + x[i+1:]
+		}
+		// no leading zeroes in integer (but not floating-point)
+		// imaginary literals
+		if x[len(x)-1] == 'i' && !strings.ContainsAny(x, ".e") {
+			x = strings.TrimLeft(x, "0_")
+			if x == "i" {
+				x = "0i"
+			}
+		}
+	case "0X", "0x":
+		x = "0x" + x[2:]
+		// possibly a hexadecimal float
+		if i := strings.LastIndexByte(x, 'P'); i >= 0 {
+			x = x[:i] + "p" + x[i+1:]
+		}
+	case "0O":
+		x = "0o" + x[2:]
+	case "0B":
+		x = "0b" + x[2:]
+	}
+	return x
 }
 
 // typeNameAtEnd returns what the text of a type ends in, if that can take in
